@@ -61,14 +61,20 @@ def def_message(b_defs, d_defs):
     return Encoder().process(json.loads(json.dumps(msg)), wire_template_data=False).serialized_bytes, vals
 
 
-def random_history(rng, k):
-    """definitions + a data message over them + the oracle (expected decoded values)"""
+def random_history(rng, k, reuse=None):
+    """definitions + a data message over them + the oracle (expected decoded values).
+    reuse: an earlier history of the same stream: some of its element / sequence ids are defined AGAIN here,
+    with other attributes / members (the later definition governs what follows it)"""
     n_el = rng.randint(1, 5)
     used = set()
     b_defs = []
+    old_el = [e['id'] for e in reuse['b_defs'] if e['id'] != 12001] if reuse else []
+    old_seq = [q['id'] for q in reuse['d_defs'] if q['id'] not in reuse['reponly']] if reuse else []
     for _ in range(n_el):
         while True:
             id_ = rng.randrange(48, 64) * 1000 + rng.randrange(1, 256)
+            if old_el and rng.random() < 0.7:
+                id_ = rng.choice(old_el)
             if id_ not in used:
                 used.add(id_)
                 break
@@ -89,6 +95,10 @@ def random_history(rng, k):
     d_defs = []
     for _ in range(rng.randint(0, 2)):
         sid = 300000 + rng.randrange(48, 64) * 1000 + rng.randrange(1, 256)
+        if old_seq and rng.random() < 0.6:
+            sid = rng.choice(old_seq)
+        if any(q['id'] == sid for q in d_defs):
+            continue
         members = [rng.choice(b_defs)['id'] for _ in range(rng.randint(1, 3))]
         if rng.random() < 0.4:
             members = [101000 + rng.choice([2, 3])] + members[:1] + members[1:]
@@ -261,6 +271,33 @@ def expect_matches(exp, v, isb):
     return False
 
 
+def decu_line(h):
+    bits = h['bits']
+    pad = -len(bits) % 8
+    return 'decu 1 %s:%d %s' % (bytes(int((bits + '0' * pad)[i:i + 8], 2) for i in range(0, len(bits) + pad, 8)).hex() or '-',
+                                len(bits), h['toks'])
+
+
+def check_data(ctx, h, dv, do, case):
+    """(2) the oracle and (3) the model, for one data message decoded by the implementation"""
+    ok = (len(dv['vals']) == 1 and len(dv['vals'][0]) == len(h['expect'])
+          and all(expect_matches(e, v, b) for e, v, b in zip(h['expect'], dv['vals'][0], dv['isbytes'][0]))
+          and dv['labels'][0] == h['labels'])
+    if not ok:
+        ctx.violation({'kind': 'C20-definitions-not-governing', 'case': case, 'decoded': str(dv['vals'])[:300],
+                       'expected': str(h['expect'])[:300], 'labels': dv['labels']},
+                      'data message after the definition message does not decode according to the definitions')
+    if not do.startswith('ok '):
+        ctx.compare(dict(case, what='model decode'), 'ok', do, kind='C20-model-decode', holds=lambda: ok)
+    else:
+        mv = B.parse_model_subsets(do.split(' ')[1])[0]
+        same = len(mv) == len(dv['vals'][0]) and all(
+            B.value_matches(t, (v.encode('latin-1') if b else v))[0] for t, v, b in zip(mv, dv['vals'][0], dv['isbytes'][0]))
+        if not same:
+            ctx.compare(dict(case, what='model decode'), str(dv['vals'][0])[:200], do[:200], kind='C20-model-decode', holds=lambda: ok)
+    return ok
+
+
 def run(ctx):
     os.makedirs(os.path.join(lib.VERIF, 'replays'), exist_ok=True)
     ctx.rule = ('histories in a FRESH interpreter each (the extra entries are process-global): a generated NCEP-layout definition '
@@ -270,7 +307,9 @@ def run(ctx):
                 'BufrTableDefinitionProcessor == TableDef.process_defs of the extracted model on the decoded definition values, '
                 '(2) the data message decodes to the values an independent oracle computes from the definitions ((raw+ref)/10^scale, '
                 'missing, bytes) and the standard element keeps its standard meaning, (3) the extracted Decode model over a template '
-                'built from the definitions gives the same values; plus the prepbufr.bufr sample.')
+                'built from the definitions gives the same values; streams with TWO definition messages (DEF1 DATA1 DEF2 DATA2) where DEF2 defines '
+                'some of DEF1\'s element / sequence ids again with other attributes / members (DATA1 by DEF1, DATA2 by DEF2); NCEP '
+                'replication-only sequences used twice with different targets; plus the prepbufr.bufr sample.')
     rng = ctx.rng
     n = ctx.n(60, 1200)
     hist = [random_history(rng, k) for k in range(n)]
@@ -312,25 +351,39 @@ def run(ctx):
         ctx.compare(dict(case, what='extracted entries'), io, mo, kind='C20-extraction',
                     holds=lambda: all(('%06d' % e['id']) in res['b'] and res['b']['%06d' % e['id']][2:5] == [e['scale'], e['ref'], e['nbits']]
                                       for e in h['b_defs']))
-        # (2) the oracle
-        dv = res['ok'][1]
-        ok = (len(dv['vals']) == 1 and len(dv['vals'][0]) == len(h['expect'])
-              and all(expect_matches(e, v, b) for e, v, b in zip(h['expect'], dv['vals'][0], dv['isbytes'][0]))
-              and dv['labels'][0] == h['labels'])
-        if not ok:
-            ctx.violation({'kind': 'C20-definitions-not-governing', 'case': case, 'decoded': str(dv['vals'])[:300],
-                           'expected': str(h['expect'])[:300], 'labels': dv['labels']},
-                          'data message after the definition message does not decode according to the definitions')
-        # (3) the model
-        if not do.startswith('ok '):
-            ctx.compare(dict(case, what='model decode'), 'ok', do, kind='C20-model-decode', holds=lambda: ok)
-        else:
-            mv = B.parse_model_subsets(do.split(' ')[1])[0]
-            same = len(mv) == len(dv['vals'][0]) and all(
-                B.value_matches(t, (v.encode('latin-1') if b else v))[0] for t, v, b in zip(mv, dv['vals'][0], dv['isbytes'][0]))
-            if not same:
-                ctx.compare(dict(case, what='model decode'), str(dv['vals'][0])[:200], do[:200], kind='C20-model-decode', holds=lambda: ok)
+        check_data(ctx, h, res['ok'][1], do, case)
         ctx.sample({'b_defs': h['b_defs'][:2], 'ids': h['ids'], 'expect': str(h['expect'])[:120]}, limit=3)
+    # two definition messages in one stream: DEF1 DATA1 DEF2 DATA2, DEF2 defining some of DEF1's ids AGAIN with other
+    # attributes / members: what follows DEF2 is decoded by DEF2, DATA1 (before it) by DEF1
+    n2 = ctx.n(24, 500)
+    pairs = []
+    for k in range(n2):
+        h1 = random_history(rng, 10000 + k)
+        h2 = random_history(rng, 20000 + k, reuse=h1)
+        pairs.append((h1, h2))
+    streams2 = []
+    for h1, h2 in pairs:
+        parts = []
+        for h in (h1, h2):
+            dm, _ = def_message(h['b_defs'], h['d_defs'])
+            parts += [dm, craft_message(h['ids'], h['bits'])]
+        streams2.append(b''.join(parts))
+    with ThreadPoolExecutor(max_workers=8) as ex:
+        results2 = list(ex.map(run_child, streams2))
+    douts2 = lib.run_model([decu_line(h) for pr in pairs for h in pr])
+    for j, ((h1, h2), res) in enumerate(zip(pairs, results2)):
+        redefined = sorted(set(e['id'] for e in h1['b_defs']) & set(e['id'] for e in h2['b_defs']))
+        case = {'k': h2['k'], 'stage1': {'b_defs': h1['b_defs'], 'd_defs': h1['d_defs'], 'ids': h1['ids'], 'bits': h1['bits']},
+                'b_defs': h2['b_defs'], 'd_defs': h2['d_defs'], 'ids': h2['ids'], 'bits': h2['bits'], 'redefined': redefined}
+        ctx.count(('history2', j, len(h2['bits'])), True)
+        ctx.dist['two definition messages'] += 1
+        ctx.dist['redefined-elements-%d' % min(len(redefined), 3)] += 1
+        if 'err' in res or len(res['ok']) != 4:
+            ctx.violation({'kind': 'C20-stream-failed', 'case': case, 'result': str(res)[:400]},
+                          'DEF1 DATA1 DEF2 DATA2 did not decode: %s' % str(res.get('err'))[:200])
+            continue
+        check_data(ctx, h1, res['ok'][1], douts2[2 * j], dict(case, stage=1))
+        check_data(ctx, h2, res['ok'][3], douts2[2 * j + 1], dict(case, stage=2))
     # the sample file with in-stream definitions
     f = os.path.join(lib.REPO, 'tests', 'data', 'prepbufr.bufr')
     if os.path.exists(f):
